@@ -59,7 +59,10 @@ def run(ctx: Context) -> None:
             passthrough(ctx, "C03.R2", tree, sb, l, call_sink("Data", kw="data", argpos=0), "chunk->h11.Data")
             sends = [c for c in ast.walk(l) if isinstance(c, ast.Call) and norm(c.func) == "self._send_event"]
             datas = [s for s in ast.walk(l) if isinstance(s, ast.Assign) and isinstance(s.value, ast.Call) and norm(s.value.func) == "h11.Data"]
-            ok = len(sends) == 1 and len(datas) == 1 and [norm(a) for a in sends[0].args[:1]] == [norm(datas[0].targets[0])] and not guard_atoms(guards_of(sends[0])) - guard_atoms(guards_of(l))
+            direct = [c for c in ast.walk(l) if isinstance(c, ast.Call) and norm(c.func) == "h11.Data"]
+            sent_arg = sends[0].args[0] if len(sends) == 1 and sends[0].args else None
+            is_event = sent_arg is not None and ((len(datas) == 1 and norm(sent_arg) == norm(datas[0].targets[0])) or (len(direct) == 1 and sent_arg is direct[0] and not datas))
+            ok = len(sends) == 1 and is_event and not guard_atoms(guards_of(sends[0])) - guard_atoms(guards_of(l))
             rep.ob("C03.R2", fkey(tree, sb, "data-event-sent"), ok, where(sb, l), "each Data event is sent once, unconditionally")
         eoms = [c for c in own_nodes(sb.node) if isinstance(c, ast.Call) and norm(c.func) == "h11.EndOfMessage"]
         inloop = {id(x) for l in ls for x in ast.walk(l)}
@@ -97,8 +100,9 @@ def run(ctx: Context) -> None:
             es = [norm(k.value) for k in c.keywords if k.arg == "end_stream"]
             esrc = [norm(a) for k in c.keywords if k.arg == "end_stream" for a in ctx.prov.expand(k.value, s2, c)]
             body = h2.methods["_send_request_body"]
-            first = next(iter(effective_body(body.node.body)), None)
-            early = isinstance(first, ast.If) and norm(first.test) == "nothas_body_headers(request)" and len(first.body) == 1 and isinstance(first.body[0], ast.Return)
+            from .common import early_return_atom
+
+            early = early_return_atom(body.node.body) == "not:has_body_headers(request)"
             rep.ob("C03.R4", fkey(tree, s2, "end-stream-agreement"), esrc == ["nothas_body_headers(request)"] and early, where(s2, c),
                    f"END_STREAM <- {esrc}; body routine returns early on the same predicate: {early}" + ("" if esrc == ["nothas_body_headers(request)"] and early else " - data on a closed stream or a stream that is never ended"))
         # R5
